@@ -19,9 +19,10 @@ Keep == UNCHANGED <<tid, l>>
 \* public attributes after the step: packets_rec is the number handed in; the store holds only packets in flight
 Bound == nrecv' = Ev.nrecv /\ Ev.items >= 0 /\ Ev.items <= Len(fl')
 
-\* tap after Wire.put returned: the packet carries its entry instant
+\* tap after Wire.put returned (the entry stamp the implementation leaves on the packet, Ev.at, is recorded for the
+\* reader of a replay file but not compared: the property does not speak about it)
 ArriveEv == /\ Here /\ Ev.e = "A"
-            /\ Ev.id = nrecv + 1 /\ Objs[Ev.id] = Ev.obj /\ Ev.at = now
+            /\ Ev.id = nrecv + 1 /\ Objs[Ev.id] = Ev.obj
             /\ Arrive(Ev.id) /\ Bound /\ Consume
 \* scripted uniform draw (call number n of this wire)
 LossEv == /\ Here /\ Ev.e = "U" /\ Ev.n = nu + 1
@@ -31,11 +32,9 @@ LossEv == /\ Here /\ Ev.e = "U" /\ Ev.n = nu + 1
 DelayEv == /\ Here /\ Ev.e = "W" /\ Ev.n = nw + 1
            /\ DelayDraw(Ev.d)
            /\ Consume
-\* tap inside the downstream put(): the object delivered is the one the head-of-line entry handed in; its
-\* entry stamp is compared unless the same object has entered again meanwhile (al = 1: stamp is of the latest entry)
+\* tap inside the downstream put(): the object delivered is the one the head-of-line entry handed in
 DeliverEv == /\ Here /\ Ev.e = "D"
              /\ fl # <<>> /\ Objs[Head(fl).id] = Ev.obj
-             /\ (Ev.al = 1 \/ Head(fl).at = Ev.at)
              /\ Deliver /\ Bound /\ Consume
 \* env.run() returned with an empty agenda: nothing may be left in flight
 QuietEv == /\ Here /\ Ev.e = "Q"
